@@ -2,6 +2,7 @@ package checks
 
 import (
 	"fmt"
+	"reflect"
 	"time"
 
 	"github.com/gebn/bmc"
@@ -229,7 +230,19 @@ type histObs struct {
 // histMenu builds the menu function for an alphabet name; checks register
 // additional alphabets here.
 var histAlphabets = map[string]func(cfg histCfg, w *World) []histAnswer{
-	"retry":     func(cfg histCfg, w *World) []histAnswer { return retryAlphabet(cfg.InSession, w) },
+	"retry": func(cfg histCfg, w *World) []histAnswer { return retryAlphabet(cfg.InSession, w) },
+	// every completion code as the final answer
+	"codes": func(cfg histCfg, w *World) []histAnswer {
+		a := []histAnswer{{Answer: env.Honest(), Class: clsFinal, Own: true}}
+		for cc := 1; cc < 256; cc++ {
+			cls := clsFinal
+			if cc == 0xC0 || cc == 0xC3 {
+				cls = clsTemporary
+			}
+			a = append(a, histAnswer{Answer: env.Code(fmt.Sprintf("code-%02x", cc), byte(cc)), Class: cls, Code: byte(cc)})
+		}
+		return a
+	},
 	"handshake": func(cfg histCfg, w *World) []histAnswer { return handshakeAlphabet(w) },
 }
 
@@ -251,6 +264,28 @@ func handshakeAlphabet(w *World) []histAnswer {
 		}),
 		{Answer: env.LostReply(), Class: clsNothing},
 		{Answer: env.LostRequest(), Class: clsNothing},
+		// a duplicate of an earlier session-less command reply is still in the
+		// socket: a valid packet, but not the payload that was asked for
+		// (the BMC's own reply to this attempt is lost, so nothing is left over
+		// in the socket for later payloads)
+		{Answer: env.Answer{Name: "stale-command-reply-instead", Apply: func(t *env.Transport, rx *ref.Rx) {
+			stale := ref.BuildMsg(0x81, 0x07, 0, 0x20, 1, 0, 0x38, append([]byte{0}, t.BMC.Cfg.AuthCaps...))
+			t.Enqueue(ref.BuildPacket(ref.PTIPMI, false, 0, 0, stale, nil), "stale-ipmi")
+		}}, Class: clsUndecodable},
+		// the honest payload, but the BMC fills the (unused) session ID and
+		// sequence fields of the session-less wrapper with non-zero values
+		{Answer: env.Raw("honest-with-nonzero-wrapper-ids", func(t *env.Transport, rx *ref.Rx) []byte {
+			if rx == nil {
+				return nil
+			}
+			if rx.ReplyPayload != nil {
+				return ref.BuildPacket(rx.ReplyPType, false, 0x01020304, 7, rx.ReplyPayload, nil)
+			}
+			if rx.Msg != nil && (rx.Sess == nil || !rx.Sess.Active) {
+				return ref.BuildPacket(ref.PTIPMI, false, 0x01020304, 7, ref.ResponseTo(rx.Msg, rx.CC, rx.Body), nil)
+			}
+			return t.BMC.Honest(rx)
+		}), Class: clsFinal, Own: true},
 		{Answer: env.Raw("truncated-payload", func(t *env.Transport, rx *ref.Rx) []byte {
 			if rx == nil {
 				return nil
@@ -404,7 +439,7 @@ func runHistory(cfg histCfg, ch *env.Chooser) *histObs {
 				r.Err = err.Error()
 			}
 			if rsp := cmd.Response(); rsp != nil && err == nil {
-				r.Rsp = fmt.Sprintf("%+v", rsp)
+				r.Rsp = canonNamed(reflect.ValueOf(rsp))
 			}
 		}
 		r.Last = len(w.T.Log)
